@@ -63,4 +63,19 @@ def run(st, tier, seed):
     bundles += exb
     compile_check.run_bundles(st, res, bundles, "C02", "system", must_accept=True)
     res.programs = len(bundles)
+    # text level: the model of the .sys statement parsers (PepperModel/ParseSys.lean, theorems PepperProps/ParseSys.lean) against
+    # the real pyparsing grammars and the real load_system loop, on generated lines (valid + malformed), on the .sys files of
+    # the generated bundles and of the repository examples
+    if st.driver_ok:
+        import parsecorr_sys
+        drv = core.Driver()
+        quick = tier == "quick"
+        parsecorr_sys.check_lines(res, drv, parsecorr_sys.gen_lines(rng, 1200 if quick else 40000, res), "text")
+        docs = [(t, None) for _, b in bundles[:60 if quick else 1500] if not getattr(b, "args", None)
+                for k, t in sorted(b.texts.items()) if k.endswith(".sys")]
+        parsecorr_sys.check_docs(res, drv, docs[:150 if quick else 4000], "text-bundle")
+        parsecorr_sys.check_docs(res, drv, parsecorr_sys.gen_docs(rng, 100 if quick else 3000), "text-gen")
+        parsecorr_sys.check_render(res, drv, parsecorr_sys.gen_asts(rng, 100 if quick else 2000), "text-render")
+        if not quick:
+            parsecorr_sys.check_docs(res, drv, parsecorr_sys.example_docs(), "text-examples")
     return res
